@@ -379,7 +379,13 @@ extern "C" {
     fn _exit(code: i32) -> !;
     fn dup2(old: i32, new: i32) -> i32;
     fn open(path: *const u8, flags: i32) -> i32;
+    fn setrlimit(resource: i32, rlim: *const [u64; 2]) -> i32;
 }
+
+/// address-space limit of an isolated child: a declared length that is absurd but still allocatable
+/// (a few GB) must fail like any other allocation failure instead of filling the machine's memory
+const CHILD_AS_LIMIT: u64 = 1 << 30;
+const RLIMIT_AS: i32 = 9;
 
 /// Run `f` in a forked child and return what it produced; `(abort SIG)` if the child died.
 pub fn isolated(f: impl FnOnce() -> String) -> String {
@@ -396,6 +402,8 @@ pub fn isolated(f: impl FnOnce() -> String) -> String {
         }
         if pid == 0 {
             close(fds[0]);
+            let lim = [CHILD_AS_LIMIT, CHILD_AS_LIMIT];
+            setrlimit(RLIMIT_AS, &lim);
             // silence the allocation-failure message of the child
             let devnull = open(b"/dev/null\0".as_ptr(), 1);
             if devnull >= 0 {
